@@ -120,11 +120,24 @@ def pass_case(case):
     inset = set((p.name, p.arity) for p in i)
     outset = set((p.name, p.arity) for p in o)
     problems = []
-    # (a) inputs never receive new defining rules (baseline: ngo's own normal form, which unpools rules)
+    # (a) inputs never receive new defining rules: every head atom over an input predicate in the result is, up to the
+    #     names of its variables, a head atom of ngo's own normal form of the source (a pass may split ONE rule into
+    #     several with the same head - minmax's simple translation does - which is not a new definition)
+    def head_shapes(p):
+        out = {}
+        for s in p:
+            for sg, sym in astspec.head_derived(s):
+                for q in astspec.sigs(sym):
+                    names = {}
+                    shape = re.sub(r"\b[A-Z_][A-Za-z0-9_]*\b", lambda m: names.setdefault(m.group(0), f"V{len(names)}"), str(sym))
+                    out.setdefault(q, set()).add((str(sg), shape))
+        return out
     hs, hr = heads(base), heads(res)
+    shs, shr = head_shapes(base), head_shapes(res)
     for q in sorted(inset):
-        if hr.get(q, 0) > hs.get(q, 0):
-            problems.append(("input predicate received a new defining rule", list(q)))
+        extra_shapes = shr.get(q, set()) - shs.get(q, set())
+        if extra_shapes:
+            problems.append(("input predicate received a new defining rule", [list(q), sorted(extra_shapes)[:3]]))
     # (b) invented head predicates are new w.r.t. source, IN, OUT
     invented = sorted(q for q in hr if q not in hs)
     for q in invented:
